@@ -11,12 +11,14 @@ _W = None     # sorted list of (lo, hi, w) with w in {-1 (None), 0, 1, 2}
 _C = None     # sorted list of (lo, hi)
 _WLO = None
 _CLO = None
+_CLS = {}     # std character classes: name -> sorted [(lo, hi)]
 
 
 def load(path):
-    global _W, _C, _WLO, _CLO
+    global _W, _C, _WLO, _CLO, _CLS
     with open(path) as f:
         d = json.load(f)
+    _CLS = {k: [tuple(x) for x in v] for k, v in d.get('classes', {}).items()}
     _W = [tuple(x) for x in d['width']]
     _C = [tuple(x) for x in d['combining']]
     _WLO = [x[0] for x in _W]
@@ -38,6 +40,17 @@ def width(cp):
 def is_combining(cp):
     i = bisect.bisect_right(_CLO, cp) - 1
     return i >= 0 and _C[i][0] <= cp <= _C[i][1]
+
+
+def char_class(name, cp):
+    """std's char::<name> for a concrete code point / as a z3 condition for a symbolic one."""
+    rs = _CLS.get(name)
+    if rs is None:
+        return None
+    if isinstance(cp, int):
+        i = bisect.bisect_right([r[0] for r in rs], cp) - 1
+        return i >= 0 and rs[i][0] <= cp <= rs[i][1]
+    return _in_ranges(cp, rs)
 
 
 def _in_ranges(x, ranges):
